@@ -17,12 +17,16 @@ RULE = (
 ASSUMPTIONS = ["cost, labels, constant, min/max density are read from the fitted model (C12/C13/C16 decide them)", "the statement does not fix the divisor of the query's density: k and k+1 are both accepted"]
 BUDGET = {
     "quick": {"examples": 8000, "shards": 8, "min_nontrivial": 800},
-    "thorough": {"examples": 40000, "shards": 16, "min_nontrivial": 5000, "max_wall": 3000},
+    "thorough": {"examples": 160000, "shards": 16, "min_nontrivial": 5000, "max_wall": 3000},
 }
 
 
 def strategy(tier):
-    return knncase.knn_case(nmax=12 if tier == "quick" else 24, nq=(1, 8), kmax_force=True)
+    n = 12 if tier == "quick" else 24
+    sym = knncase.knn_case(nmax=n, nq=(1, 8), kmax_force=True)
+    # "all metrics": also the asymmetric divergences (the query is the first argument of the metric in predict)
+    asym = knncase.knn_case(nmax=n, nq=(1, 8), kmax_force=True, modes=("feat",), metrics=["neyman", "pearson", "kullback_leibler", "k_divergence"])
+    return st.one_of(sym, sym, sym, sym, asym)
 
 
 def check_predictions(r, case, preds, clusters, tag):
@@ -48,11 +52,13 @@ def check_predictions(r, case, preds, clusters, tag):
 
 def check_case(case):
     np = models.np()
-    r = knncase.run(case, predict=True)
+    r = knncase.run(case, predict=True, need_symmetric=False)
     if isinstance(r, str):
         return Outcome.discard(r)
     nt, nq = case["nt"], case["nq"]
     cl = ["model_" + case["model"], "mode_" + case["mode"], "best_k=%d" % r.state["sg_best_k"]]
+    if case["mode"] == "feat" and case["metric"] in ("neyman", "pearson", "kullback_leibler", "k_divergence"):
+        cl.append("asymmetric_metric")
     clusters = r.clusters or [None] * nq
     ntc = check_predictions(r, case, r.preds, clusters, "batch positions 0..%d" % (nq - 1))
     # the same queries again, shifted to batch positions >= n_train by prepending n_train filler rows (copies of query 0)
